@@ -6,6 +6,7 @@ import (
 	"fmt"
 	"net"
 	"sort"
+	"strings"
 	"time"
 
 	"github.com/anishathalye/porcupine"
@@ -94,7 +95,7 @@ func cleanSchemes(in []string) []string {
 	var out []string
 	seen := map[string]bool{}
 	for _, s := range in {
-		if validScheme(s) && !seen[s] && len(out) < 4 {
+		if validScheme(strings.ToLower(s)) && !seen[s] && len(out) < 4 {
 			seen[s] = true
 			out = append(out, s)
 		}
@@ -103,6 +104,35 @@ func cleanSchemes(in []string) []string {
 		return defaultSchemes[:1]
 	}
 	return out
+}
+
+// expandSpellings adds the all-lower-case spelling of every scheme name that
+// contains capitals (the spelling ParseURL produces), so that a history can
+// register under one spelling and dial under another. class[i] is the index of
+// the first spelling that equals spelling i when letter case is ignored.
+func expandSpellings(schemes []string) (spell []string, class []int) {
+	spell = append(spell, schemes...)
+	for _, s := range schemes {
+		l := strings.ToLower(s)
+		found := false
+		for _, t := range spell {
+			found = found || t == l
+		}
+		if !found {
+			spell = append(spell, l)
+		}
+	}
+	class = make([]int, len(spell))
+	for i := range spell {
+		class[i] = i
+		for j := 0; j < i; j++ {
+			if strings.EqualFold(spell[j], spell[i]) {
+				class[i] = j
+				break
+			}
+		}
+	}
+	return spell, class
 }
 
 // runClient performs the steps of one client. It touches nothing shared with
@@ -152,23 +182,25 @@ func runClient(start time.Time, ci int, steps []Step, schemes []string, recs []r
 			r.call = int64(time.Since(start))
 			transport.UnregisterDialer(scheme)
 		case "dialctx":
-			u, err := transport.ParseURL(scheme + ":///N0CALL-" + fmt.Sprint(ci))
+			u, err := transport.ParseURL(strings.ToLower(scheme) + ":///N0CALL-" + fmt.Sprint(ci))
 			if err != nil {
 				r.op, r.id = "dialctx", resOther
 				r.call = int64(time.Since(start))
 				break
 			}
+			u.Scheme = scheme // the spelling of this step (ParseURL gives the lower-case one)
 			r.call = int64(time.Since(start))
 			c, err := transport.DialURLContext(context.Background(), u)
 			r.id = dialResult(c, err)
 		default:
 			r.op = "dial"
-			u, err := transport.ParseURL(scheme + ":///N0CALL-" + fmt.Sprint(ci))
+			u, err := transport.ParseURL(strings.ToLower(scheme) + ":///N0CALL-" + fmt.Sprint(ci))
 			if err != nil {
 				r.id = resOther
 				r.call = int64(time.Since(start))
 				break
 			}
+			u.Scheme = scheme
 			r.call = int64(time.Since(start))
 			c, err := transport.DialURL(u)
 			r.id = dialResult(c, err)
@@ -179,63 +211,84 @@ func runClient(start time.Time, ci int, steps []Step, schemes []string, recs []r
 
 type regInput struct {
 	kind   int // 0 register, 1 unregister, 2 dial
-	scheme int
+	scheme int // index of the spelling used
+	class  int // index of the first spelling equal to it when case is ignored
 	id     int
 }
 
 // registryModel is the sequential specification: per scheme, the id of the
 // dialer registered last, or resMissing.
-var registryModel = porcupine.Model{
-	Partition: func(h []porcupine.Operation) [][]porcupine.Operation {
-		by := map[int][]porcupine.Operation{}
-		var keys []int
-		for _, op := range h {
-			s := op.Input.(regInput).scheme
-			if _, ok := by[s]; !ok {
-				keys = append(keys, s)
+//
+// The property does not say whether scheme names that differ in letter case
+// only name the same registration. Both readings are accepted, each as a
+// whole: registryModel keeps one entry per spelling (what /repo does),
+// registryModelFold one entry per case-insensitive name. A history is a
+// violation only if it is linearizable against neither - e.g. a registry that
+// folds case when registering and dialling but not when unregistering.
+var registryModel = registryModelBy(func(in regInput) int { return in.scheme })
+var registryModelFold = registryModelBy(func(in regInput) int { return in.class })
+
+func registryModelBy(key func(regInput) int) porcupine.Model {
+	return porcupine.Model{
+		Partition: func(h []porcupine.Operation) [][]porcupine.Operation {
+			by := map[int][]porcupine.Operation{}
+			var keys []int
+			for _, op := range h {
+				s := key(op.Input.(regInput))
+				if _, ok := by[s]; !ok {
+					keys = append(keys, s)
+				}
+				by[s] = append(by[s], op)
 			}
-			by[s] = append(by[s], op)
-		}
-		sort.Ints(keys)
-		out := make([][]porcupine.Operation, 0, len(keys))
-		for _, k := range keys {
-			out = append(out, by[k])
-		}
-		return out
-	},
-	Init: func() interface{} { return resMissing },
-	Step: func(state, input, output interface{}) (bool, interface{}) {
-		in := input.(regInput)
-		switch in.kind {
-		case 0:
-			return true, in.id
-		case 1:
-			return true, resMissing
-		}
-		return output.(int) == state.(int), state
-	},
-	DescribeOperation: func(input, output interface{}) string {
-		in := input.(regInput)
-		switch in.kind {
-		case 0:
-			return fmt.Sprintf("register(s%d,#%d)", in.scheme, in.id)
-		case 1:
-			return fmt.Sprintf("unregister(s%d)", in.scheme)
-		}
-		return fmt.Sprintf("dial(s%d)->#%d", in.scheme, output.(int))
-	},
+			sort.Ints(keys)
+			out := make([][]porcupine.Operation, 0, len(keys))
+			for _, k := range keys {
+				out = append(out, by[k])
+			}
+			return out
+		},
+		Init: func() interface{} { return resMissing },
+		Step: func(state, input, output interface{}) (bool, interface{}) {
+			in := input.(regInput)
+			switch in.kind {
+			case 0:
+				return true, in.id
+			case 1:
+				return true, resMissing
+			}
+			return output.(int) == state.(int), state
+		},
+		DescribeOperation: func(input, output interface{}) string {
+			in := input.(regInput)
+			switch in.kind {
+			case 0:
+				return fmt.Sprintf("register(s%d,#%d)", in.scheme, in.id)
+			case 1:
+				return fmt.Sprintf("unregister(s%d)", in.scheme)
+			}
+			return fmt.Sprintf("dial(s%d)->#%d", in.scheme, output.(int))
+		},
+	}
 }
 
 type concResult struct {
 	ops   []porcupine.Operation
 	lines []string
+	fold  bool // some spellings differ in letter case only
 }
 
 // execConc runs the concurrent arm inside the bubble and returns the merged
 // history; linearizability is checked by the caller outside the bubble
 // (porcupine's timeout must read the real clock).
 func execConc(sim *core.Sim, prop string, p *Plan, out *core.Outcome) *concResult {
-	schemes := cleanSchemes(p.Schemes)
+	schemes, class := expandSpellings(cleanSchemes(p.Schemes))
+	fold := false
+	for i, c := range class {
+		fold = fold || c != i
+	}
+	if fold {
+		sim.Probe("histories-with-spellings-that-differ-in-case-only")
+	}
 	clients := p.Clients
 	if len(clients) > 8 {
 		clients = clients[:8]
@@ -297,10 +350,10 @@ func execConc(sim *core.Sim, prop string, p *Plan, out *core.Outcome) *concResul
 		}
 		return all[i].ci < all[j].ci
 	})
-	res := &concResult{}
+	res := &concResult{fold: fold}
 	dialHits, shared := 0, 0
 	for i, f := range all {
-		in := regInput{scheme: f.r.scheme, id: f.r.id}
+		in := regInput{scheme: f.r.scheme, class: class[f.r.scheme], id: f.r.id}
 		var o interface{} = 0
 		switch f.r.op {
 		case "reg", "regctx", "regboth":
@@ -342,9 +395,15 @@ func checkLinearizable(prop string, cr *concResult, out *core.Outcome) {
 	}
 	res := porcupine.CheckOperationsTimeout(registryModel, cr.ops, 10*time.Second)
 	out.AddCounters(nil, map[string]int{"concurrent-histories-checked": 1})
+	if res == porcupine.Illegal && cr.fold {
+		// not one entry per spelling: then it has to be one per case-insensitive name
+		if res = porcupine.CheckOperationsTimeout(registryModelFold, cr.ops, 10*time.Second); res != porcupine.Illegal {
+			out.AddCounters(nil, map[string]int{"histories-legal-only-under-the-case-insensitive-reading": 1})
+		}
+	}
 	switch res {
 	case porcupine.Illegal:
-		msg := "history is not linearizable against the map model (scheme -> dialer registered last):\n"
+		msg := "history is not linearizable against the map model (scheme -> dialer registered last), neither with one entry per spelling nor with one per case-insensitive name:\n"
 		for i, l := range cr.lines {
 			if i >= 80 {
 				msg += "...\n"
